@@ -93,6 +93,11 @@ def _determinism(deadline, rng, tier):
     return witness_determinism.search(deadline, rng, n=400 if tier == 'thorough' else 40, runs=5 if tier == 'thorough' else 3)
 
 
+def _locations(deadline, rng, tier):
+    from . import witness_locations
+    return witness_locations.search(deadline, rng, n_samples=400 if tier == 'thorough' else 60)
+
+
 def _render(deadline, rng, tier):
     from . import witness_render
     return witness_render.search(deadline, rng, n_samples=400 if tier == 'thorough' else 40)
@@ -143,6 +148,8 @@ SUITES = {
              '18 module sets of 2..4 files (public/private function, constant, structure; direct, missing, transitive, diamond imports; relative paths; look-alike file names) x file orders')],
     'C13': [('determinism', _determinism, 'HashMap/HashSet iteration order in scoper/typer/expander',
              'invalid and valid samples of the repository plus 4 constructed multi-error modules, each compiled in 3 (thorough: 5) fresh processes'),
+            ('diagnostic_locations', _locations, 'alpha parser span bookkeeping (location_of_span, combined_with call sites), error.rs',
+             'every Location in the diagnostics of 10 multi-line constructs, 80 by-construction rejected programs, 60 (thorough: all) invalid samples and 40 CRLF variants: inside the source, starting on the reported line'),
             ('rendering', _render, 'error.rs build_report/write and the ariadne renderer',
              'the diagnostics of <= 120 by-construction rejected programs and 40 (thorough: all) invalid samples x 4 colour/charset configurations: no failure, no escape sequence when colour is off, ASCII when colour is off and arrows are ascii'),
             ('alpha_lexer_spans', _lexa, 'none (spans are also proved: U-LEXA); kept as replay source', 'as C09.alpha_lexer_tokens'),
